@@ -1,7 +1,7 @@
 from __future__ import annotations
 import zlib
 from ..rfc7516.models import JWEZipModel
-from ..errors import ExceededSizeError
+from ..errors import DecodeError, ExceededSizeError
 
 GZIP_HEAD = bytes([120, 156])
 MAX_SIZE = 250 * 1024
@@ -24,10 +24,14 @@ class DeflateZipModel(JWEZipModel):
             decompressor = zlib.decompressobj()
         else:
             decompressor = zlib.decompressobj(-zlib.MAX_WBITS)
-        value = decompressor.decompress(s, MAX_SIZE)
-        # zlib may consume all of its input and still hold back output that
-        # did not fit into MAX_SIZE, in which case "unconsumed_tail" is empty
-        if decompressor.unconsumed_tail or decompressor.decompress(b"", 1):
+        try:
+            value = decompressor.decompress(s, MAX_SIZE)
+            # zlib may consume all of its input and still hold back output that
+            # did not fit into MAX_SIZE, in which case "unconsumed_tail" is empty
+            exceeded = decompressor.unconsumed_tail or decompressor.decompress(b"", 1)
+        except zlib.error as error:
+            raise DecodeError(str(error))
+        if exceeded:
             raise ExceededSizeError(f"Decompressed string exceeds {MAX_SIZE} bytes")
         return value
 
